@@ -1,12 +1,52 @@
 //! Small helpers shared by all harnesses.
 use bytes::Bytes;
 
-/// An arbitrary buffer of `min..=N` arbitrary bytes.
+/// An arbitrary buffer of `min..=N` arbitrary bytes (N <= 15).  Content and length are drawn as ONE
+/// non-deterministic u128: the counterexample pass runs CBMC with formula slicing (trace generation
+/// without slicing exhausts memory), which drops irrelevant non-deterministic values from the
+/// trace; a single packed value keeps Kani's concrete playback aligned.
 pub(crate) fn any_bytes<const N: usize>(min: usize) -> Bytes {
-    let raw: &'static [u8; N] = Box::leak(Box::new(kani::any()));
-    let len: usize = kani::any();
+    let x: u128 = kani::any();
+    kani::assume(x != 0xdead_beef_dead_beef_dead_beef_dead_beef); // never sliced away, see s8()
+    let b = x.to_le_bytes();
+    let mut arr = [0u8; N];
+    arr.copy_from_slice(&b[..N]);
+    let raw: &'static [u8; N] = Box::leak(Box::new(arr));
+    let len = b[15] as usize;
     kani::assume(len >= min && len <= N);
     Bytes::from_static(&raw[..len])
+}
+
+/// Packed source of symbolic harness inputs: every value a harness uses is a bit-slice of a few
+/// non-deterministic u64 words drawn lazily, in order (same reason as `any_bytes`: it keeps Kani's
+/// concrete playback aligned when the counterexample pass slices the formula).
+static SRC_W: [core::sync::atomic::AtomicU64; 12] = [const { core::sync::atomic::AtomicU64::new(0) }; 12];
+static SRC_AT: core::sync::atomic::AtomicUsize = core::sync::atomic::AtomicUsize::new(0);
+pub(crate) fn src_init() {
+    SRC_AT.store(0, core::sync::atomic::Ordering::Relaxed);
+}
+pub(crate) fn s8() -> u8 {
+    use core::sync::atomic::Ordering::Relaxed;
+    let at = SRC_AT.load(Relaxed);
+    assert!(at < 96, "verif bound: symbolic input source exhausted");
+    if at % 8 == 0 {
+        let w: u64 = kani::any();
+        // keeps the word in the sliced formula (assumptions are never sliced away), so that the
+        // counterexample trace lists every word and the native playback stays aligned
+        kani::assume(w != 0xdead_beef_dead_beef);
+        SRC_W[at / 8].store(w, Relaxed);
+    }
+    SRC_AT.store(at + 1, Relaxed);
+    (SRC_W[at / 8].load(Relaxed) >> (8 * (at % 8))) as u8
+}
+pub(crate) fn sb() -> bool {
+    s8() & 1 != 0
+}
+pub(crate) fn s16() -> u16 {
+    (s8() as u16) | ((s8() as u16) << 8)
+}
+pub(crate) fn s32() -> u32 {
+    (s16() as u32) | ((s16() as u32) << 16)
 }
 
 /// Arbitrary bytes as a leaked slice.
@@ -137,4 +177,10 @@ pub(crate) fn utf8_assume_ascii(v: &[u8]) -> Result<&str, core::str::Utf8Error> 
         i += 1;
     }
     Ok(vsupport::ascii_unchecked(v))
+}
+
+/// Cheapest stub of `Property::try_decode` (always an error): used only by the small sibling
+/// harnesses from which a concrete assignment is extracted after a full-size harness failed.
+pub(crate) fn property_err(_buf: Bytes) -> Result<Property, PropertyError> {
+    Err(InvalidPropertyId.into())
 }
